@@ -30,11 +30,15 @@ var xSamples = []struct {
 	{"BE", xlatesample.BE}, {"Str", xlatesample.Str}, {"Switch", xlatesample.Switch}, {"SwitchRet", xlatesample.SwitchRet},
 	{"IfMerge", xlatesample.IfMerge}, {"Swap", xlatesample.Swap}, {"RangeSum", xlatesample.RangeSum}, {"RangeMinMax", xlatesample.RangeMinMax},
 	{"Count", xlatesample.Count}, {"CountRet", xlatesample.CountRet}, {"Struct", xlatesample.Struct}, {"Ret0", xlatesample.Ret0},
-	{"Collect", xlatesample.Collect}, {"Make", xlatesample.Make}, {"Search", xlatesample.Search}, {"Widen", xlatesample.Widen}, {"SortDesc", xlatesample.SortDesc}, {"StrOrder", xlatesample.StrOrder}, {"LoopCut", xlatesample.LoopCut}, {"FillPkt", xlatesample.FillPkt},
+	{"Collect", xlatesample.Collect}, {"Make", xlatesample.Make}, {"Search", xlatesample.Search}, {"Widen", xlatesample.Widen}, {"SortDesc", xlatesample.SortDesc}, {"StrOrder", xlatesample.StrOrder}, {"LoopCut", xlatesample.LoopCut}, {"FillPkt", xlatesample.FillPkt}, {"MapErr", xlatesample.MapErr},
 }
 
 // pure samples with a `for { }` loop take fuel
 var xSampleFuel = map[string]bool{"LoopCut": true}
+
+// samples whose error results are values (unit option ErrVals): the error struct's name
+var xSampleErrVals = map[string]string{"MapErr": "E"}
+var xErrValsNow string // set while the results of such a sample are written
 
 // boundary values of a parameter type
 func xGrid(t reflect.Type) []reflect.Value {
@@ -103,6 +107,16 @@ func xCoqVal(v reflect.Value) string {
 	case reflect.Bool:
 		return fmt.Sprint(v.Bool())
 	case reflect.Interface: // an error: nil or not
+		if xErrValsNow != "" { // an error value: nil, the error struct, or a text (errors.New)
+			rec := "go_xlatesample_" + xErrValsNow
+			if v.IsNil() {
+				return "(@GoErrNil " + rec + ")"
+			}
+			if el := v.Elem(); el.Kind() == reflect.Ptr && el.Elem().Kind() == reflect.Struct && el.Elem().Type().Name() == xErrValsNow {
+				return "(GoErrVal " + xCoqVal(el.Elem()) + ")"
+			}
+			return "(@GoErrNew " + rec + " " + xBytesLit(v.Interface().(error).Error()) + ")"
+		}
 		return fmt.Sprint(!v.IsNil())
 	case reflect.String:
 		return xBytesLit(v.String())
@@ -277,7 +291,7 @@ func init() {
 		}
 		var units []xUnit
 		for _, s := range xSamples {
-			units = append(units, xUnit{Name: "tr_s_" + s.name, Dir: "xlatesample", Func: s.name, Fuel: xSampleFuel[s.name]})
+			units = append(units, xUnit{Name: "tr_s_" + s.name, Dir: "xlatesample", Func: s.name, Fuel: xSampleFuel[s.name], ErrVals: xSampleErrVals[s.name]})
 		}
 		for _, s := range xRdSamples {
 			units = append(units, xUnit{Name: "tr_s_" + s.name, Dir: "xlatesample", Func: "R." + s.name, State: sampleReader, Fuel: s.fuel, Group: s.group})
@@ -301,6 +315,7 @@ func init() {
 				n *= len(grids[i])
 			}
 			var ins, outs []string
+			xErrValsNow = xSampleErrVals[s.name]
 			for k := 0; k < n; k++ { // the full product of the grids
 				args := make([]reflect.Value, len(grids))
 				for i, r := 0, k; i < len(grids); i++ {
@@ -318,6 +333,7 @@ func init() {
 				ins = append(ins, "tr_s_"+s.name+fuel+" "+strings.Join(as, " "))
 				outs = append(outs, xCallSample(f, args))
 			}
+			xErrValsNow = ""
 			total += n
 			fmt.Printf("\nExample selftest_%s :\n  [%s]\n  = [%s].\nProof. vm_compute. reflexivity. Qed.\n", s.name, strings.Join(ins, ";\n   "), strings.Join(outs, ";\n     "))
 		}
